@@ -77,6 +77,23 @@ func TestSim(t *testing.T) {
 		if err := writeJSON(out+"/replay.json", &rr); err != nil {
 			t.Fatal(err)
 		}
+	case "hashes":
+		// determinism self-test: evaluate a range of run seeds and write their hashes
+		type hrec struct {
+			Seed  uint64 `json:"seed"`
+			Trace string `json:"trace"`
+			Log   string `json:"log"`
+		}
+		var recs []hrec
+		bs := envU64("VERIF_BATCH_SEED", 1)
+		for i := envInt("VERIF_FROM", 0); i < envInt("VERIF_TO", 100); i++ {
+			seed := RunSeed(bs, i)
+			_, o := EvalFresh(t, ch, seed, tier)
+			recs = append(recs, hrec{Seed: seed, Trace: o.TraceHash, Log: o.LogHash})
+		}
+		if err := writeJSON(out+"/hashes.json", recs); err != nil {
+			t.Fatal(err)
+		}
 	case "minimize":
 		c, err := readCase(os.Getenv("VERIF_CASE"))
 		if err != nil {
